@@ -132,6 +132,26 @@ fn raw_forms(ctx: &'static Ctx) -> u64 {
         raw!("FACS", acpi_tables::facs::FACS::new());
         raw!("BERT", acpi_tables::bert::BERT::new(*b"VERIF1", *b"VERIFTBL", 1, f.u32(0), f.u64(1)));
         raw!("Rsdp", acpi_tables::rsdp::Rsdp::new(*b"VERIF1", f.u64(0)));
+        // the TCPA server table is a packed struct too (it can be handed to add_structure like any other): after every
+        // builder step as the LAST step — alone, and after all the other steps
+        {
+            let c = Ctor::new(2, 0, 2);
+            let all: Vec<Op> = (0..10u8).map(|k| Op { k: if k == 9 { 3 } else { k }, shape: 0, fill: if k == 9 { Fill::b(1) } else { *f } }).collect();
+            for last in 0..all.len() {
+                for with_others in [false, true] {
+                    let mut t = acpi_tables::tpm2::TpmServer1_2::new(c.oem_id(), c.oem_table_id(), c.oem_rev());
+                    if with_others {
+                        for (i, o) in all.iter().enumerate() {
+                            if i != last {
+                                t = crate::tables::fixed::ts_apply(t, o);
+                            }
+                        }
+                    }
+                    t = crate::tables::fixed::ts_apply(t, &all[last]);
+                    raw!("TpmServer1_2", t);
+                }
+            }
+        }
     });
     n.load(Ordering::Relaxed)
 }
